@@ -19,7 +19,9 @@ def make_record(length: int, circular: bool):
 def make_cds(name: str, loc_case: dict, core_products=()):
     cds = DummyCDS(location=G.from_case(loc_case), locus_tag=name)
     for product in core_products:
-        cds.gene_functions.add(GeneFunction.CORE, "verif", "core gene", product)
+        # the text of the product as a rule run, a results file or a GenBank file hands it over: equal to the
+        # protocluster's, not the same object
+        cds.gene_functions.add(GeneFunction.CORE, "verif", "core gene", product[:1] + product[1:])
     return cds
 
 
